@@ -2,9 +2,12 @@ package main
 
 import (
 	"bytes"
+	"crypto/ecdsa"
+	"encoding/asn1"
 	"encoding/hex"
 	"errors"
 	"io"
+	"math/big"
 	"strconv"
 	"strings"
 
@@ -100,7 +103,31 @@ func parseKeySpec(s string) (kind string, alg int64, arg string) {
 	return parts[0], a, parts[2]
 }
 
+// "E:curve:Rhex:Shex": the library's own ECDSA signer over an opaque crypto.Signer that returns
+// ASN.1(R, S) — reaches encodeECDSASignature through the public API with chosen (R, S).
+type spySigner struct {
+	inner cose.Signer
+	log   *callLog
+}
+
+func (s *spySigner) Algorithm() cose.Algorithm { return s.inner.Algorithm() }
+func (s *spySigner) Sign(r io.Reader, content []byte) ([]byte, error) {
+	s.log.tbs = append(s.log.tbs, append([]byte(nil), content...))
+	return s.inner.Sign(r, content)
+}
+
 func mkSigner(spec string, log *callLog) cose.Signer {
+	if strings.HasPrefix(spec, "E:") {
+		parts := strings.Split(spec, ":")
+		curve, alg := curveOf(parts[1])
+		der, _ := asn1.Marshal(struct{ R, S *big.Int }{parseSigned(parts[2]), parseSigned(parts[3])})
+		stub := &asn1Stub{pub: &ecdsa.PublicKey{Curve: curve, X: big.NewInt(1), Y: big.NewInt(1)}, out: der}
+		inner, err := cose.NewSigner(alg, stub)
+		if err != nil {
+			panic("bad E signer")
+		}
+		return &spySigner{inner: inner, log: log}
+	}
 	kind, alg, arg := parseKeySpec(spec)
 	if kind == "T" || kind == "R" {
 		k, _ := strconv.Atoi(arg)
